@@ -58,6 +58,13 @@ func (s Schema) Lookup(name string) (Term, bool) {
 // Formats in the order they are tried.
 var Formats = []string{"jsonschema", "openapi", "cue"}
 
+// Term.Hints values (beyond irgen's 0..2 hint counts) that select, for JSON Schema, the
+// spelling of a nullable scalar as a type list instead of `oneOf: [T, {type: null}]`.
+const (
+	TypeListNullLast  = 10 // "type": [T, "null"]
+	TypeListNullFirst = 11 // "type": ["null", T]
+)
+
 // Unsupported is returned by Render when a format cannot express a construct.
 type Unsupported struct{ Format, Construct string }
 
@@ -162,7 +169,12 @@ func (s Schema) check(format string) error {
 			if t.Nullable && format == "openapi" && t.K == "ref" {
 				bad("nullable reference")
 			}
-			if t.Hints > 0 {
+			if t.Hints >= TypeListNullLast {
+				// spelling of a nullable scalar as a JSON Schema type list
+				if format != "jsonschema" || !t.Nullable || t.K != "scalar" {
+					bad("type list")
+				}
+			} else if t.Hints > 0 {
 				bad("hints")
 			}
 		})
@@ -185,6 +197,7 @@ func (m *om) set(k string, v any) *om {
 	m.vals[k] = v
 	return m
 }
+func (m *om) get(k string) (any, bool) { v, ok := m.vals[k]; return v, ok }
 func (m *om) MarshalJSON() ([]byte, error) {
 	var b strings.Builder
 	b.WriteByte('{')
@@ -336,7 +349,15 @@ func (s Schema) jsonTree(t Term, format, refPrefix string) *om {
 	if onBranch {
 		m.set("default", s.DefaultValue(t))
 	}
-	if t.Nullable {
+	if t.Nullable && !oapi && t.Hints >= TypeListNullLast && t.K == "scalar" {
+		if typ, ok := m.get("type"); ok {
+			if t.Hints == TypeListNullFirst {
+				m.set("type", []any{"null", typ})
+			} else {
+				m.set("type", []any{typ, "null"})
+			}
+		}
+	} else if t.Nullable {
 		if oapi {
 			m.set("nullable", true)
 		} else {
@@ -699,7 +720,12 @@ func leafResets(t Term) []Term {
 			out = append(out, irgen.S("string"))
 			if t.Nullable || t.Default != "" {
 				c := t
-				c.Nullable, c.Default = false, ""
+				c.Nullable, c.Default, c.Hints = false, "", 0
+				out = append(out, c)
+			}
+			if t.Hints >= TypeListNullLast {
+				c := t
+				c.Hints = 0
 				out = append(out, c)
 			}
 		}
